@@ -12,7 +12,7 @@ import RepeVerif.Gen.Router
 
 clause → theorem
 * facts of the current source the theorems are instantiated with ......... `C07.source_forms`
-* middleware runs for every route, registered before or after ............ `C07.middleware_uniform`, `C07.middleware_order`
+* middleware runs for every route, registered before or after ............ `C07.middleware_uniform`, `C07.middleware_order`, `C07.get_runs_all_middleware`
 * behind any forwarding middleware chain: same response, same execution .. `C07.forwarding_transparent`, `C07.forwarding_pipeline`
 * borrowed path of a handler using the default = copying path ............ `C07.view_default_eq_owned`
 * borrowed twin of the built-ins = owned twin (modulo serde/beve) ........ `C07.builtin_twins_agree`
@@ -64,6 +64,17 @@ theorem middleware_uniform (ops : List Op) (e : Entry)
 the middleware registered before it and the middleware registered after it. -/
 theorem middleware_order (ops : List Op) : (Router.run Gen.routerFacts {} ops).mws = mwsOf ops := by
   simpa using run_mws Gen.routerFacts ops {}
+
+/-- What a request meets: whatever `Router::get` returns for whatever path, after whatever history,
+is wrapped in every middleware ever registered, in registration order – before or after the route. -/
+theorem get_runs_all_middleware (ops : List Op) (path : Str) (f : Found)
+    (h : (Router.run Gen.routerFacts {} ops).get Gen.routerFacts path = some f) :
+    f.entry.mws = mwsOf ops := by
+  rw [middleware_uniform ops f.entry (get_mem_entries _ _ _ _ h), middleware_order]
+
+example : ((Router.run Gen.routerFacts {}
+    [.middleware 7, .struct "/s".toList 3, .middleware 8]).get Gen.routerFacts "/s/x".toList).map (·.entry.mws)
+    = some [7, 8] := by decide
 
 example : (Router.run Gen.routerFacts {}
     [.route "/a".toList 1, .middleware 7, .registry "/r".toList 2, .middleware 8, .struct "s".toList 3]).entries
